@@ -180,6 +180,12 @@ pub open spec fn evicts(w: &World, k: int) -> int { if reg_live(w, w.registry, k
 pub open spec fn reg_live(w: &World, rg: Map<int, AnyVal>, k: int) -> bool { rg.dom().contains(k) && !w.slots[rg[k].slot].resolved }
 // rule M4: `format!(..)` (error messages): some string
 #[verifier::external_body] pub fn hx_format() -> (r: String) { unimplemented!() }
+// std functions vstd has no specification for (their documented behaviour, assumed):
+pub assume_specification<T>[Option::<T>::replace](o: &mut Option<T>, v: T) -> (r: Option<T>)
+    ensures r == *old(o), *final(o) == Some(v);
+pub assume_specification<T>[<[T]>::split_last](s: &[T]) -> (r: Option<(&T, &[T])>)
+    ensures s@.len() == 0 ==> r is None,
+            s@.len() > 0 ==> r is Some && ({ let p = r.unwrap(); *p.0 == s@.last() && p.1@ == s@.drop_last() });
 // std::any::type_name::<T>() (diagnostics): some string
 #[verifier::external_body] pub fn hx_type_name<T>() -> (r: &'static str) { unimplemented!() }
 // std::future::ready(v): a future that is complete at once, yields v and does nothing else
